@@ -54,6 +54,9 @@ CLAIMED = {
  "C12": dict(cat="proof", tech="Coq model of mdarray as owning (mapping, container) with an operation machine over a store of arrays; theorems on sizing, access, view aliasing, copy independence, move, size(); step-by-step correspondence incl. all constructors, pmr, ASan",
    text="Theorems C12_construct_size (value-initialised container of exactly required_span_size() elements; N for std::array), C12_adopts_container, C12_access (a(i...) = container()[mapping()(i...)]), C12_view_aliases (to_mdspan()/conversion operators: same mapping, handle = data(); a write through either is read through the other), C12_copy_independent, C12_write_original_leaves_copy, C12_move_transfers, C12_size_is_product. Correspondence: generated programs over layouts {left, right, stride with gaps, left/right padded} x containers {vector, array<N>, pmr::vector} exercising 13 constructors, copy, move, assign, writes through the array and through views; after every operation container size, size(), data()/to_mdspan()/conversion-operator/flag consistency, extents and all elements of every live array are compared with the model.",
    ref="4/C12", note=NOTE_COMMON + " The standard containers are trusted; moved-from std::vector is observed empty."),
+ "C19": dict(cat="proof", tech="Coq interleaving model: every schedule of race-free thread programs equals the sequential composition (induction over the interleaving relation, commutation of compatible actions); distinct multi-indices of the shared view through copies / sub-views are distinct cells (C01 injectivity + C04 aliasing); clang-AST purity audit of the headers; real threads under ThreadSanitizer compared with the model",
+   text="Theorems C19_interleaving_is_sequential / C19_schedule_independent (all interleavings, any number of threads and actions), C19_final_cell (each cell holds its only writer's last value, others unchanged), C19_thread_reads_as_alone, C19_disjoint_indices_race_free and C19_shared_view (threads accessing pairwise distinct elements of the shared view through it, copies or sub-views of any depth compile to race-free cell programs), C19_pure_actions (observers / copies / sub-view creation have no effect). Tie to the code: (i) purity audit on every run - clang -ast-dump=json of mdspan.hpp + mdarray.hpp in C++14/17/20/2b: no non-const static-storage variable, thread_local, mutable member or const_cast in namespace Kokkos, plus a token scan of all headers; (ii) generated thread programs (2-8 threads; writes/reads through the shared const mdspan, private copies and sub-views created inside the threads; observers; all access forms; default and proxy accessor; 5 layouts) run with g++/clang++ ThreadSanitizer and plain builds; final buffer, per-thread read logs and observer results compared with the model's sequential composition; the model also runs the verified race-freedom checker race_freeb on every generated case.",
+   ref="4/C19", note=NOTE_COMMON + " Partial in one respect: what the C++ memory model calls a data race is delegated to ThreadSanitizer on the executed schedules."),
 }
 PENDING_REASON = "check under construction in this session (Coq theorems and correspondence driver not yet committed); not claimed until both exist"
 
